@@ -98,6 +98,17 @@ Qed.
 Lemma oeq_emit A h (p : prog A) : oeq (emit h ;;; p) p.
 Proof. intros ? ?; reflexivity. Qed.
 
+Lemma oeq_rep_nat A (c d : prog A) n : oeq c d -> oeq (rep_nat n c) (rep_nat n d).
+Proof.
+  intros H. induction n as [|n IH]; cbn [rep_nat]; [apply oeq_refl|].
+  apply oeq_bind; [exact H|]. intros a. apply oeq_bind; [exact IH|]. intros; apply oeq_refl.
+Qed.
+Lemma oeq_rep A (c d : prog A) n : oeq c d -> oeq (rep n c) (rep n d).
+Proof.
+  intros H. eapply oeq_trans; [apply peq_oeq, rep_rep_nat|].
+  eapply oeq_trans; [apply oeq_rep_nat; exact H|]. apply oeq_sym, peq_oeq, rep_rep_nat.
+Qed.
+
 Lemma rep_nat_mul A (c : prog A) (q m : nat) :
   oeq (l <- rep_nat q (rep_nat m c) ;; Ret (concat l)) (rep_nat (q * m) c).
 Proof.
